@@ -23,6 +23,90 @@ type XVal struct {
 	Vs   []XVal   `json:"vs"`
 	Name string   `json:"name"`
 	Ulps int      `json:"ulps"`
+	Lst  *struct {
+		Of   int    `json:"of"`
+		Ver  int    `json:"ver"`
+		Kind string `json:"kind"`
+	} `json:"lst"`
+}
+
+// listState remembers, per object and modification count, which listing orders are still compatible with the
+// key / value listings printed so far (any order is allowed, but it must be stable and the two must agree).
+type listState map[string][][]int
+
+func perms(n int) [][]int {
+	var res [][]int
+	p := make([]int, n)
+	for i := range p {
+		p[i] = i
+	}
+	var rec func(k int)
+	rec = func(k int) {
+		if k == n {
+			res = append(res, append([]int(nil), p...))
+			return
+		}
+		for i := k; i < n; i++ {
+			p[k], p[i] = p[i], p[k]
+			rec(k + 1)
+			p[k], p[i] = p[i], p[k]
+		}
+	}
+	rec(0)
+	return res
+}
+
+// matchListing matches a printed key/value listing against the expected elements in some order consistent with
+// the earlier listings of the same unmodified object.
+func matchListing(v *XVal, line string, strict bool, ls listState) string {
+	n := len(v.E)
+	if n > 7 {
+		return ""
+	}
+	key := fmt.Sprintf("%d:%d", v.Lst.Of, v.Lst.Ver)
+	cands, seen := ls[key]
+	if !seen {
+		cands = perms(n)
+	}
+	toks := compTokens(line)
+	var keep [][]int
+	anyOrder := false
+	for _, p := range perms(n) {
+		pv := XVal{T: "arr", E: make([]XVal, n)}
+		for i, j := range p {
+			pv.E[i] = v.E[j]
+		}
+		ok := false
+		for _, e := range matchComp(&pv, toks, 0, strict) {
+			if e == len(toks) {
+				ok = true
+			}
+		}
+		if ok {
+			anyOrder = true
+			for _, c := range cands {
+				same := true
+				for i := range c {
+					if c[i] != p[i] {
+						same = false
+						break
+					}
+				}
+				if same {
+					keep = append(keep, p)
+					break
+				}
+			}
+		}
+	}
+	if !anyOrder {
+		return "listing does not show exactly the expected elements"
+	}
+	if len(keep) == 0 {
+		return "listing order disagrees with an earlier key/value listing of the same unmodified object"
+	}
+	ls[key] = keep
+	return ""
 }
 
 type OutRec struct {
@@ -305,7 +389,10 @@ func matchComp(v *XVal, toks []string, pos int, strict bool) []int {
 }
 
 // matchLine checks one printed line (without its newline) against the expected value.
-func matchLine(v *XVal, line string, strict bool) string {
+func matchLine(v *XVal, line string, strict bool, ls listState) string {
+	if v.T == "arr" && v.Lst != nil && len(v.E) >= 2 && ls != nil {
+		return matchListing(v, line, strict, ls)
+	}
 	switch v.T {
 	case "str":
 		if line != intsToString(v.S) {
@@ -408,6 +495,7 @@ func valClass(v *XVal) string {
 // It returns the index of the first record that does not match (or len(exp) if only the tail differs), and a description.
 func matchOut(exp []OutRec, actual string, strict bool) (int, string, string) {
 	rest := actual
+	ls := listState{}
 	for i := range exp {
 		r := &exp[i]
 		if r.T == "prompt" {
@@ -437,7 +525,7 @@ func matchOut(exp []OutRec, actual string, strict bool) (int, string, string) {
 			return i, r.T + ":" + valClass(&r.V) + ":no-newline", fmt.Sprintf("unterminated line %q", clip(rest, 60))
 		}
 		line := rest[:nl]
-		if why := matchLine(&r.V, line, strict); why != "" {
+		if why := matchLine(&r.V, line, strict, ls); why != "" {
 			return i, r.T + ":" + valClass(&r.V), fmt.Sprintf("line %q: %s", clip(line, 80), why)
 		}
 		rest = rest[nl+1:]
